@@ -19,8 +19,11 @@ import (
 )
 
 var (
-	c02V4 = []string{"203.0.113.1", "203.0.113.2", "203.0.113.3", "203.0.113.4", "203.0.113.5", "203.0.113.6"}
-	c02V6 = []string{"2001:db8:bad::1", "2001:db8:bad::2", "2001:db8:bad::3", "2001:db8:bad::4"}
+	// (Public documentation addresses first; then private, shared, link-local
+	// and unique-local ones: a rule naming an address applies whatever range
+	// the address is from.)
+	c02V4 = []string{"203.0.113.1", "203.0.113.2", "203.0.113.3", "203.0.113.4", "203.0.113.5", "203.0.113.6", "10.0.0.5", "192.168.1.1", "172.16.3.4", "100.64.0.9", "169.254.7.7"}
+	c02V6 = []string{"2001:db8:bad::1", "2001:db8:bad::2", "2001:db8:bad::3", "2001:db8:bad::4", "fd00::1", "fe80::7"}
 )
 
 // c02GenRules generates rules over names of the C01 tree and over IP
